@@ -128,18 +128,26 @@ bool String::load(std::istream &in, Context&) {
 
     in >> s;
     if (in.fail()) return false;
+    // the length is a plain decimal numeral
+    if (s.empty() || s.size() > 18) return false;
+    for (char c : s) {
+        if (c < '0' || c > '9') return false;
+    }
     size_t length = std::stoul(s, nullptr);
 
-    char *buf = new char[length];
     in.ignore(1); // whitespace
-    in.read(buf, length);
+    std::string buf;
+    for (size_t i = 0; i < length; i++) {
+        int c = in.get();
+        if (c == std::istream::traits_type::eof()) return false; // payload shorter than announced
+        buf += (char) c;
+    }
     value.clear();
     value.reserve(length);
     for (size_t i = 0; i < length; i++) {
         if (i > 0 && buf[i] == '#' && buf[i-1] == '\n') continue;
         value += buf[i];
     }
-    delete[] buf;
 
     return true;
 }
